@@ -43,7 +43,7 @@ try: am=json.load(open(os.path.join(d,'agent_meta.json')))
 except Exception:
     try: am=json.load(open(os.path.join(d,'meta.json')))
     except Exception: pass
-meta={'property':pid,'summary':am.get('summary'),'needs':am.get('needs'),'files':am.get('files'),
+meta={'property':am.get('property') or pid,'also':am.get('also'),'summary':am.get('summary'),'needs':am.get('needs'),'files':am.get('files'),
       'confirmed':{'applies':applies=='yes','existing_tests':tests,'demo_exit_with_patch':int(dm),'demo_exit_clean':int(dc)},
       'ran':'tools/eval_seeded.sh: patch applied to a scratch copy of /repo (never to /repo), pinned pytest suite, demo on patched and clean copy, then the listed checks with VERIF_REPO=<scratch>',
       'checks':json.loads(res)}
